@@ -253,6 +253,8 @@ inductive RawAttr where
   /-- path ends in `derive_where` but is qualified (only the attribute macro reacts) -/
   | dwQualified (p : MPath) (b : DWBody)
   | repr (b : ReprBody)
+  /-- a foreign attribute that is a bare path, e.g. `#[derive_where::derive_where_visited]` -/
+  | bare (p : MPath)
   | other
   deriving Repr, Inhabited
 
